@@ -229,6 +229,24 @@ pub fn generate(_prop: &str, tier: Tier, seed: u64, run: u64) -> Sc {
     let mut net = rng.split("network");
     let mut sched = rng.split("schedule");
     let stack_kib = *knobs.pick(&[512usize, 1024, 8192]);
+    // enumerated segment: the first runs pair every corpus type, as the sender, with every corpus
+    // type as the receiver, 48 receivers per run (the gate rejects most pairs at once; every
+    // accepted pair is then judged)
+    let corp = corpus::corpus();
+    const BLOCK: usize = 48;
+    let blocks = corp.len().div_ceil(BLOCK);
+    if (run as usize) < corp.len() * blocks {
+        let sender = corp[run as usize / blocks].name.clone();
+        let b = run as usize % blocks;
+        let reps = if tier == Tier::Thorough { 3 } else { 1 };
+        let mut events = Vec::new();
+        for r in corp.iter().skip(b * BLOCK).take(BLOCK) {
+            for _ in 0..reps {
+                events.push(Ev::NativePair { at: 0, sender: sender.clone(), receiver: r.name.clone(), vseed: wl.next_u64(), size: wl.range(1, 8) as usize });
+            }
+        }
+        return Sc { stack_kib: 8192, env: SEnv::new(), venvs: vec![], versions: vec![SType::Service(vec![])], kinds: vec!["initial".into()], events };
+    }
     if knobs.chance(1, 8) {
         return planted_definition_change(&mut knobs, &mut wl, &mut sched, stack_kib);
     }
